@@ -75,6 +75,7 @@ def _one(ctx, e2e, i, rng, interp, system, tmin, dt, comp, case_id, large=False)
         wd = e2e.workdir(case_id)
         path = WF.write_dataset(ds, cfg, wd)
         cls = f"{interp}|T_MIN={tmin:g},DT={dt:g}|{comp}" + ("|large-grid" if large else "")
+        cls_base = cls
         sample = {"interpolator": interp, "order": order, "system": ds.system if use_system else None, "T_MIN": tmin, "DT": dt,
                   "NT": cfg["qha"]["settings"]["NT"], "NTV": cfg["qha"]["settings"]["NTV"], "volumes": nv, "nq": ds.nq, "atoms": ds.natoms,
                   "components_in_table": ["c%d%d" % T.VOIGT21[n] for n in ds.columns], "data": data_class,
@@ -92,6 +93,17 @@ def _one(ctx, e2e, i, rng, interp, system, tmin, dt, comp, case_id, large=False)
             ctx.count("generator_skips")
             return
         WF.place_pressures(rng, cfg, p_lo, p_hi, inside=True)
+        # the output sampling intervals are optional settings: given equal to the grid steps, left out (the packaged defaults
+        # of 100 K / 1 GPa then apply, whatever DT and DELTA_P are), or given as a multiple of the grid steps
+        sampling = ["as-grid", "omitted", "multiple"][(i // 2) % 3]
+        qs_ = cfg["qha"]["settings"]
+        if sampling == "omitted":
+            qs_.pop("DT_SAMPLE", None)
+            qs_.pop("DELTA_P_SAMPLE", None)
+        elif sampling == "multiple":
+            qs_["DT_SAMPLE"] = qs_["DT"] * int(rng.integers(2, 5))
+            qs_["DELTA_P_SAMPLE"] = qs_["DELTA_P"] * int(rng.integers(2, 4))
+        sample["sampling_intervals"] = sampling
         path = WF.write_dataset(ds, cfg, wd)
         # only the always-valid second reference (arrays the objects were given) runs here; the free-energy reference
         # needs the interpolation error budget and is applied in C05
